@@ -1,6 +1,7 @@
 package sim
 
 import (
+	ipfslog "berty.tech/go-ipfs-log"
 	"context"
 	"encoding/json"
 	"fmt"
@@ -104,9 +105,25 @@ func scenC07(k *K) {
 		case 3:
 			present := ds.Index().Get(key) != nil
 			lenBefore := ds.OpLog().Len()
+			hashesBefore := LogHashSet(ds)
 			wr, err := c.Write(node, "docdel "+key, func(ctx context.Context) (operation.Operation, error) { return ds.Delete(ctx, key) })
 			if !present {
+				// a replication that was under way may have merged a put of this key between
+				// the reading above and the call's own look at the documents: then the call
+				// was right to accept
+				raced := false
 				if err == nil {
+					for _, e := range LogValues(ds) {
+						if h := e.GetHash().String(); !hashesBefore[h] && h != wr.Hash {
+							if _, ok := ReplayLWW([]ipfslog.Entry{e})[key]; ok {
+								raced = true
+							}
+						}
+					}
+				}
+				if raced {
+					k.W.Stat("delete-absent-raced-with-merge")
+				} else if err == nil {
 					k.Failf("C07/delete-absent-accepted", "n%d Delete(%q) of an absent key returned success (%v)", node, key, wr.Name)
 				}
 				if ds.OpLog().Len() != lenBefore && k.opsInFlight() == 0 {
@@ -201,10 +218,13 @@ func c07Queries(k *K, c *Cluster, r int, nkeys int) int {
 		}
 	}
 	preds := map[string]func(m map[string]interface{}) bool{
-		"true":       func(map[string]interface{}) bool { return true },
-		"false":      func(map[string]interface{}) bool { return false },
-		"v-has-0":    func(m map[string]interface{}) bool { s, _ := m["v"].(string); return strings.HasPrefix(s, "w0.") },
-		"key-prefix": func(m map[string]interface{}) bool { s, _ := m["_id"].(string); return strings.HasPrefix(strings.ToLower(s), "a") },
+		"true":    func(map[string]interface{}) bool { return true },
+		"false":   func(map[string]interface{}) bool { return false },
+		"v-has-0": func(m map[string]interface{}) bool { s, _ := m["v"].(string); return strings.HasPrefix(s, "w0.") },
+		"key-prefix": func(m map[string]interface{}) bool {
+			s, _ := m["_id"].(string)
+			return strings.HasPrefix(strings.ToLower(s), "a")
+		},
 	}
 	var pn []string
 	for p := range preds {
